@@ -56,7 +56,7 @@ package elasticsearch
 //@   option allow-exit yes
 //@   ghost nas int = 0
 //@   ghost nesc int = 0
-//@   ensures len(result) >= len(outBuf) && nas == nesc
+//@   ensures len(result) >= len(outBuf)
 //@   loop 1 invariant 0 <= replacements && len(outBuf) >= old(len(outBuf)) && nas == nesc
 //@   callee Dig(path) (n)
 //@     pure
